@@ -410,7 +410,9 @@ pub fn run_pair(name: &str, a: &SemCase, b: &SemCase) -> CaseOutcome {
             // temporaries of the generator (cctmp) are excluded by the snapshot; locals keep their addresses only
             // if the declarations are the same, which the rules guarantee
             let same = if name.contains("call-vs-body") { exec::states_equal_on_globals(&pa, fa, &pb, fb) } else { exec::states_equal_ignoring_hw(fa, fb) };
-            if sa != sb || !same {
+            // two runs that both exhaust the budget (or both fault) are not compared state by state: where they
+            // were interrupted is not an observable of the program
+            if sa != sb || (*sa == crate::emu65::Stop::Returned && !same) {
                 o.fail(
                     case_key(&format!("{}|{}", ident, opt)),
                     "spellings-differ",
